@@ -34,7 +34,7 @@ theorem bitSel_x : BitSel (fun r j => r.x j) :=
 theorem bitSel_z : BitSel (fun r j => r.z j) :=
   ⟨fun _ _ _ h j hj => (h.1 j hj).2, fun _ _ _ _ => rfl⟩
 
-theorem rowSwap_row (t : STab) (a b m : Nat) : (t.rowSwap a b).row m = t.row (swp a b m) := by
+theorem rowSwap_row_swp (t : STab) (a b m : Nat) : (t.rowSwap a b).row m = t.row (swp a b m) := by
   unfold rowSwap swp
   simp only
   split
@@ -46,7 +46,7 @@ theorem pivotStep_n (t : STab) (pr f : Nat) (sel : STab → Nat → Bool) : (piv
 /-- bits of the swapped, tabulated tableau -/
 theorem swapNorm_bit {bit : PRow → Nat → Bool} (hb : BitSel bit) (t : STab) (a b m j : Nat) (hm : m < t.n) (hj : j < t.n) :
     bit ((t.rowSwap a b).norm.row m) j = bit (t.row (swp a b m)) j := by
-  rw [hb.eqOn _ _ _ (norm_row (t.rowSwap a b) m hm) j hj, rowSwap_row]
+  rw [hb.eqOn _ _ _ (norm_row (t.rowSwap a b) m hm) j hj, rowSwap_row_swp]
 
 /-- bits of the swept, tabulated tableau -/
 theorem sweepNorm_bit {bit : PRow → Nat → Bool} (hb : BitSel bit) (t : STab) (pr : Nat) (sel : Nat → Bool) (m j : Nat)
